@@ -58,6 +58,15 @@ type loopInfo struct {
 
 // Enc is the per-function encoder.
 type Enc struct {
+	loopInvCache map[*loopInfo][]Clause
+	topFn *ssa.Function // the function under verification (e.fn changes while a callee is inlined)
+	inl        string // name prefix of the values of the function currently being inlined ("" at top level)
+	inlineSeq  int
+	inlining   map[*ssa.Function]bool
+	inlineDepth int
+	entryGuard Term // guard of the entry block of an inlined function (TTrue at top level)
+	loopBase   int
+	fnStack    []*ssa.Function
 	heldNamed    []Term // mutex addresses named by held(...) in the requires clauses
 	woCache      map[*ssa.Alloc]*ssa.Store
 	frozenNames  map[string]bool
@@ -303,9 +312,9 @@ func (e *Enc) val(v ssa.Value) Term {
 func (e *Enc) fnTerm(f *ssa.Function) Term { return e.prog.fnTermByName(f.String()) }
 
 func (e *Enc) define(v ssa.Value, t Term) {
-	name := fmt.Sprintf("v_%s", sanitize(v.Name()))
+	name := fmt.Sprintf("v_%s%s", e.inl, sanitize(v.Name()))
 	if _, isParam := v.(*ssa.Parameter); isParam {
-		name = "p_" + sanitize(v.Name())
+		name = "p_" + e.inl + sanitize(v.Name())
 	}
 	// integer-valued floats keep their syntactic witness: name the integer, not the real
 	if w, ok := intWitness(t); ok && t.Sort == SReal && !isDigits(strings.TrimPrefix(w.S, "-")) {
@@ -326,7 +335,7 @@ func (e *Enc) define(v ssa.Value, t Term) {
 
 func (e *Enc) defineFresh(v ssa.Value) Term {
 	srt := e.tr.sortOf(v.Type())
-	name := fmt.Sprintf("v_%s", sanitize(v.Name()))
+	name := fmt.Sprintf("v_%s%s", e.inl, sanitize(v.Name()))
 	c := e.sc.Declare(name, srt)
 	e.vals[v] = c
 	e.sc.Assert(Implies(e.curGuard, e.tr.rangeAssumption(c, v.Type(), 0)))
@@ -458,7 +467,11 @@ func heapFieldName(tr *TypeReg, t types.Type, field int) string {
 }
 
 func (e *Enc) localName(a *ssa.Alloc) string {
-	return fmt.Sprintf("L$%s_%s", sanitize(a.Name()), sanitize(a.Comment))
+	pre := ""
+	if a.Parent() != nil && e.topFn != nil && a.Parent() != e.topFn {
+		pre = sanitize(a.Parent().Name()) + "_"
+	}
+	return fmt.Sprintf("L$%s%s_%s", pre, sanitize(a.Name()), sanitize(a.Comment))
 }
 
 // loadPtr loads a value of type t stored at address p (no path).
@@ -688,7 +701,13 @@ func (e *Enc) zeroInit(p Term, t types.Type) {
 // Loop detection
 
 func (e *Enc) findLoops() {
-	fn := e.fn
+	e.findLoopsFor(e.fn)
+}
+
+// findLoopsFor registers the natural loops of fn; their ordinals continue after the loops registered so far
+// (so that `loop k invariant` clauses of the function under verification also reach loops of inlined helpers).
+func (e *Enc) findLoopsFor(fn *ssa.Function) {
+	var mine []*loopInfo
 	for _, b := range fn.Blocks {
 		for _, s := range b.Succs {
 			if s.Dominates(b) {
@@ -696,6 +715,7 @@ func (e *Enc) findLoops() {
 				if li == nil {
 					li = &loopInfo{header: s, body: map[*ssa.BasicBlock]bool{s: true}}
 					e.loops[s] = li
+					mine = append(mine, li)
 				}
 				li.backs = append(li.backs, b)
 				// natural loop body: nodes reaching b without passing through s
@@ -712,12 +732,10 @@ func (e *Enc) findLoops() {
 			}
 		}
 	}
-	for _, li := range e.loops {
+	sort.Slice(mine, func(i, j int) bool { return mine[i].header.Index < mine[j].header.Index })
+	for _, li := range mine {
+		li.ordinal = len(e.loopList)
 		e.loopList = append(e.loopList, li)
-	}
-	sort.Slice(e.loopList, func(i, j int) bool { return e.loopList[i].header.Index < e.loopList[j].header.Index })
-	for i, li := range e.loopList {
-		li.ordinal = i
 	}
 }
 
@@ -760,7 +778,11 @@ func (e *Enc) rpo(start *ssa.BasicBlock) []*ssa.BasicBlock {
 // Local cells: Allocs whose address never escapes and is only used directly.
 
 func (e *Enc) classifyLocals() {
-	for _, b := range e.fn.Blocks {
+	e.classifyLocalsOf(e.fn)
+}
+
+func (e *Enc) classifyLocalsOf(fn *ssa.Function) {
+	for _, b := range fn.Blocks {
 		for _, ins := range b.Instrs {
 			a, ok := ins.(*ssa.Alloc)
 			if !ok || a.Heap {
